@@ -139,6 +139,10 @@ def run(repo: Repo, tier: str) -> Report:
     rep.ob("R-CHUNK", AFILE, "PixelAlgorithms.autocorr", "the dropped axis is the time axis (axis 0 of time-first data)", o.get("drop_axis") == "0", f"{o}", "drop_axis=0",
            line=mb[0].line)
 
+    from ..rules import r_token
+    for s in sites:
+        if s.mode == "map_blocks" and methods.get(s.where()) is not None:
+            r_token(rep, repo, methods[s.where()], s, s.where())
     # ---------------------------------------------------------------- 2. R-DTYPE-DECL
     n_decl = 0
     for s in sites:
